@@ -1,3 +1,4 @@
+\* X02 behaviour generation, exhaustive families (every behaviour of each family to its depth)
 INIT BInit
 NEXT BNext
 CONSTANTS
